@@ -64,7 +64,8 @@ def op(kind, **fields):
 
 
 def add_fp(d=I, ns=NSMASK, length=LEN, rsz=RSZ, ck=st.just(0), file=st.sampled_from([False] * 9 + [True])):
-    return op('add_fp', d=d, ns=ns, len=length, sz=SZ, rsz=rsz, usz=st.integers(0, 4), lead=I, salt=I, mode=FMODE, ck=ck, file=file, reuse=REUSE, magic=MAGIC)
+    return op('add_fp', d=d, ns=ns, len=length, sz=SZ, rsz=rsz, usz=st.integers(0, 4), lead=I, salt=I, mode=FMODE, ck=ck, file=file, reuse=REUSE, magic=MAGIC,
+              vtwin=st.one_of(st.just(0), st.just(0), st.just(0), st.just(0), st.just(0), st.just(0), st.integers(1, 1000)))
 
 
 def add_dir(d=I, ns=NSMASK, rsz=RSZ, sz=SZ):
